@@ -1375,10 +1375,14 @@ fn fresh_process_disagrees(obs: &Obs, r: &procworld::ProcResult) -> Option<Strin
         if let Some(end) = rest.rfind(" after ") {
             let report = rest[..end].trim_end_matches('\n');
             if !report.is_empty() {
-                let found = stderr.match_indices(report).any(|(p, _)| {
-                    let after = &stderr[p + report.len()..];
-                    after.is_empty() || after.starts_with('\n') || after.starts_with("\r\n")
-                });
+                // every line of the report is a whole line of the child's
+                // standard error, in this order (the tool may put lines of
+                // its own in between: which file, say)
+                let mut child_lines = stderr.split('\n').map(|l| l.trim_end_matches('\r'));
+                let found = report
+                    .split('\n')
+                    .map(|l| l.trim_end_matches('\r'))
+                    .all(|want| child_lines.any(|have| have == want));
                 if !found {
                     return Some(format!(
                         "run through the command-line layer in this process the program fails with the report {:?}; a fresh process prints another report on standard error",
